@@ -74,6 +74,10 @@ Proof.
   apply map_ext_in. intros g' Hg'. unfold upd. destruct (String.eqb_spec g' g); [subst; tauto|reflexivity].
 Qed.
 
+Lemma Forall2_map2' {A B C} (g : A -> B) (f : A -> C) (R : B -> C -> Prop) : forall ps,
+  (forall q, In q ps -> R (g q) (f q)) -> Forall2 R (map g ps) (map f ps).
+Proof. induction ps; simpl; intros H; constructor; auto. Qed.
+
 Section Flat.
 Variable items : list string.
 Let n := length items.
@@ -336,5 +340,134 @@ Qed.
 Theorem dot_flat (arr : list arv) :
   wf arr -> run (c1 items) init_state arr = (outs_spec [] arr, None).
 Proof. intros W. apply (run_flat arr []). exact W. Qed.
+
+
+(* ---------- order independence ---------- *)
+Definition complete (l : list arv) (g : string) : bool := Nat.eqb (length (sel g l)) n.
+(* the combinations of the complete tags, in order of first occurrence of the tag *)
+Definition done (l : list arv) : list schema :=
+  map (fun g => combo (sel g l)) (filter (complete l) (tags l)).
+
+Lemma outs_spec_snoc : forall r a x,
+  concat (outs_spec a (r ++ [x])) = concat (outs_spec a r) ++ emission (a ++ r) x.
+Proof.
+  induction r as [|y r IH]; intros a x; simpl.
+  - now rewrite !app_nil_r.
+  - rewrite IH, <- !app_assoc. simpl. reflexivity.
+Qed.
+
+Lemma sel_lt (l : list arv) (x : arv) : wf (l ++ [x]) -> length (sel (atag x) l) < n.
+Proof.
+  intros (NDi & Hports & NDk & _). set (g := atag x).
+  assert (NDl' : NoDup (map fst (sel g (l ++ [x])))) by now apply sel_ports_nodup.
+  rewrite sel_snoc in NDl'. fold g in NDl'. rewrite String.eqb_refl, map_app in NDl'. simpl in NDl'.
+  assert (Hpl : ~ In (fst x) (map fst (sel g l))).
+  { apply NoDup_remove_2 in NDl'. rewrite app_nil_r in NDl'. exact NDl'. }
+  assert (NDl : NoDup (map fst (sel g l))) by (apply NoDup_remove_1 in NDl'; now rewrite app_nil_r in NDl').
+  assert (I : incl (fst x :: map fst (sel g l)) items).
+  { intros q [<-|Hq]; [apply Hports; rewrite in_app_iff; simpl; auto|].
+    apply in_map_iff in Hq. destruct Hq as (y & <- & Hy). apply sel_in in Hy.
+    apply Hports. rewrite in_app_iff. tauto. }
+  assert (ND2 : NoDup (fst x :: map fst (sel g l))) by (constructor; auto).
+  pose proof (NoDup_incl_length ND2 I) as L. cbn [length] in L. rewrite map_length in L. exact L.
+Qed.
+
+Lemma done_step (l : list arv) (x : arv) :
+  wf (l ++ [x]) -> Permutation (done (l ++ [x])) (done l ++ emission l x).
+Proof.
+  intros W. pose proof (sel_lt l x W) as Lt. set (g := atag x) in *.
+  assert (Cg : complete l g = false).
+  { unfold complete. destruct (Nat.eqb_spec (length (sel g l)) n); auto. exfalso. rewrite e in Lt. exact (Nat.lt_irrefl _ Lt). }
+  assert (Sne : forall g', g' <> g -> sel g' (l ++ [x]) = sel g' l).
+  { intros g' Hne. rewrite sel_snoc. fold g. destruct (String.eqb_spec g g'); [congruence|]. now rewrite app_nil_r. }
+  assert (Cne : forall g', g' <> g -> complete (l ++ [x]) g' = complete l g').
+  { intros g' Hne. unfold complete. now rewrite Sne. }
+  assert (Eem : emission l x = if complete (l ++ [x]) g then [combo (sel g (l ++ [x]))] else []) by reflexivity.
+  destruct (tags_spec l) as [NDt Mt]. unfold done. rewrite tags_snoc. fold g. unfold add_tag.
+  destruct (existsb (String.eqb g) (tags l)) eqn:Ex.
+  - apply existsb_eqb_in in Ex. destruct (in_split _ _ Ex) as (pre & post & Et). rewrite Et in *.
+    assert (Npre : ~ In g pre) by (apply NoDup_remove_2 in NDt; rewrite in_app_iff in NDt; tauto).
+    assert (Npost : ~ In g post) by (apply NoDup_remove_2 in NDt; rewrite in_app_iff in NDt; tauto).
+    rewrite !filter_app. simpl. rewrite Cg, !map_app.
+    assert (Hpre : map (fun g0 => combo (sel g0 (l ++ [x]))) (filter (complete (l ++ [x])) pre) =
+                   map (fun g0 => combo (sel g0 l)) (filter (complete l) pre)).
+    { rewrite (filter_ext_in (complete (l ++ [x])) (complete l)).
+      - apply map_ext_in. intros g' Hg'. apply filter_In in Hg'. rewrite Sne; auto. intros ->. tauto.
+      - intros g' Hg'. apply Cne. intros ->. tauto. }
+    assert (Hpost : map (fun g0 => combo (sel g0 (l ++ [x]))) (filter (complete (l ++ [x])) post) =
+                    map (fun g0 => combo (sel g0 l)) (filter (complete l) post)).
+    { rewrite (filter_ext_in (complete (l ++ [x])) (complete l)).
+      - apply map_ext_in. intros g' Hg'. apply filter_In in Hg'. rewrite Sne; auto. intros ->. tauto.
+      - intros g' Hg'. apply Cne. intros ->. tauto. }
+    rewrite Hpre, Eem. rewrite <- app_assoc. apply Permutation_app_head.
+    destruct (complete (l ++ [x]) g); simpl.
+    + rewrite Hpost. apply Permutation_cons_append.
+    + rewrite Hpost. now rewrite app_nil_r.
+  - assert (Ng : ~ In g (tags l)) by (rewrite <- existsb_eqb_in; congruence).
+    rewrite filter_app, map_app. simpl. rewrite Eem.
+    assert (Hpre : map (fun g0 => combo (sel g0 (l ++ [x]))) (filter (complete (l ++ [x])) (tags l)) =
+                   map (fun g0 => combo (sel g0 l)) (filter (complete l) (tags l))).
+    { rewrite (filter_ext_in (complete (l ++ [x])) (complete l)).
+      - apply map_ext_in. intros g' Hg'. apply filter_In in Hg'. rewrite Sne; auto. intros ->. tauto.
+      - intros g' Hg'. apply Cne. intros ->. tauto. }
+    rewrite Hpre. apply Permutation_app_head. destruct (complete (l ++ [x]) g); simpl; apply Permutation_refl.
+Qed.
+
+Lemma outs_done : forall arr, wf arr -> Permutation (concat (outs_spec [] arr)) (done arr).
+Proof.
+  induction arr as [|x l IH] using rev_ind; intros W.
+  - simpl. constructor.
+  - rewrite outs_spec_snoc. simpl app. eapply Permutation_trans; [|apply Permutation_sym, done_step; exact W].
+    apply Permutation_app_tail. apply IH. eapply wf_prefix; exact W.
+Qed.
+
+Lemma Permutation_filter' {A} (f : A -> bool) l l' : Permutation l l' -> Permutation (filter f l) (filter f l').
+Proof.
+  induction 1; simpl; auto.
+  - destruct (f x); auto.
+  - destruct (f x), (f y); auto. apply perm_swap.
+  - eapply Permutation_trans; eauto.
+Qed.
+
+Lemma wf_perm a b : Permutation a b -> wf a -> wf b.
+Proof.
+  intros P (A & B & C & D). split; auto. split; [|split].
+  - intros x Hx. apply B. eapply Permutation_in; [apply Permutation_sym; exact P|exact Hx].
+  - eapply Permutation_NoDup; [|exact C]. now apply Permutation_map.
+  - intros x y Hx Hy. apply D; eapply Permutation_in; try (apply Permutation_sym; exact P); auto.
+Qed.
+
+Lemma map_atag_sel g l : map atag (sel g l) = repeat g (length (sel g l)).
+Proof.
+  unfold sel. induction l as [|a r IH]; simpl; auto.
+  destruct (String.eqb_spec (atag a) g); simpl; auto. now rewrite e, IH.
+Qed.
+
+(* equality of bags of combinations, a combination being a port -> token map *)
+Definition bag_eq (a b : list schema) : Prop :=
+  exists a' b', Permutation a a' /\ Permutation b b' /\ Forall2 (@Permutation (string * tok)) a' b'.
+
+Theorem dot_flat_order_independent (arr1 arr2 : list arv) :
+  wf arr1 -> Permutation arr1 arr2 ->
+  snd (run (c1 items) init_state arr1) = None /\ snd (run (c1 items) init_state arr2) = None /\
+  bag_eq (concat (fst (run (c1 items) init_state arr1))) (concat (fst (run (c1 items) init_state arr2))).
+Proof.
+  intros W1 P. pose proof (wf_perm _ _ P W1) as W2.
+  rewrite (dot_flat arr1 W1), (dot_flat arr2 W2). simpl. split; auto. split; auto.
+  set (T2 := filter (complete arr2) (tags arr2)).
+  exists (map (fun g => combo (sel g arr1)) T2), (done arr2). split; [|split].
+  - eapply Permutation_trans; [apply outs_done; exact W1|]. unfold done. apply Permutation_map.
+    assert (PT : Permutation (tags arr1) (tags arr2)).
+    { destruct (tags_spec arr1) as [N1 M1]. destruct (tags_spec arr2) as [N2 M2].
+      apply NoDup_Permutation; auto. intros g. rewrite M1, M2.
+      split; apply Permutation_in; [|apply Permutation_sym]; now apply Permutation_map. }
+    unfold T2. rewrite (filter_ext (complete arr2) (complete arr1)).
+    + now apply Permutation_filter'.
+    + intros g. unfold complete, sel. f_equal. apply Permutation_length, Permutation_filter'. now apply Permutation_sym.
+  - apply outs_done. exact W2.
+  - unfold done. fold T2. apply Forall2_map2'. intros g _. unfold combo.
+    assert (PS : Permutation (sel g arr1) (sel g arr2)) by (unfold sel; now apply Permutation_filter').
+    rewrite !map_atag_sel, (Permutation_length PS). unfold retag. apply Permutation_map, Permutation_map. exact PS.
+Qed.
 
 End Flat.
